@@ -267,7 +267,10 @@ class DotProduct(Expression):
 
         result: list[Expression] = []
         for var in variables:
-            if var in left_lookup:
+            if var in left_lookup and var in right_lookup:
+                # Overlapping views: the variable occurs on both sides
+                result.append(BinaryOp(left_lookup[var], right_lookup[var], "+"))
+            elif var in left_lookup:
                 result.append(left_lookup[var])
             elif var in right_lookup:
                 result.append(right_lookup[var])
@@ -1326,7 +1329,12 @@ class VectorVariable:
         if isinstance(other, MatrixVectorProduct):
             # Check if the MatrixVectorProduct's vector is self
             if isinstance(other.vector, VectorVariable):
-                if other.vector is self or other.vector.name == self.name:
+                if other.vector is self or (
+                    other.vector.size == self.size
+                    and all(
+                        a is b for a, b in zip(other.vector._variables, self._variables)
+                    )
+                ):
                     # This is x.dot(A @ x) - return QuadraticForm for O(1) gradient
                     return QuadraticForm(self, other.matrix)
 
